@@ -1,5 +1,8 @@
 import Bcder.Props.C07
 #print axioms Bcder.Props.C07.source_independence
+#print axioms Bcder.Props.C07.source_independence_closed
+#print axioms Bcder.Props.C07.capture_one_independent
+#print axioms Bcder.Props.C07.octet_string_independent
 #print axioms Bcder.Props.C07.stingy_conforming
 #print axioms Bcder.Props.C07.chunked_conforming
 #print axioms Bcder.Props.C07.generic_read_independent
